@@ -23,6 +23,9 @@
 #include "template_stack.h"
 #include "exception_runtime.h"
 #include "value.h"
+#ifdef BLOC_VERIF
+#include "verif_hooks.h"
+#endif
 
 #include <string>
 #include <forward_list>
@@ -260,7 +263,16 @@ public:
   /* Temporary storage management                                           */
   /*========================================================================*/
 
+#ifdef BLOC_VERIF
+  Value& allocate(Value&& v)
+  {
+    if (verif_hooks.on_allocate)
+      verif_hooks.on_allocate(*this);
+    return _temporary_storage.keep(std::move(v));
+  }
+#else
   Value& allocate(Value&& v) { return _temporary_storage.keep(std::move(v)); }
+#endif
 
   size_t allocationCount() const { return _temporary_storage.count(); }
 
@@ -332,6 +344,18 @@ public:
   void trusted(bool b);
 
   bool trusted() { return (_flags & FLAG_TRUSTED) != 0; }
+
+#ifdef BLOC_VERIF
+  /* read-only views for the verification harness */
+  size_t verifSymbolCount() const { return _storage_pool.size(); }
+  size_t verifControlDepth() const { return _controlstack.size(); }
+  size_t verifExecDepth() const { return _execstack.size(); }
+  size_t verifTempCount() const { return _temporary_storage.count(); }
+  size_t verifTempReserved() const { return _temporary_storage.reserved(); }
+  size_t verifBackedSymbolCount() const { return _backed_symbols.size(); }
+  const Context * verifRoot() const { return _root; }
+  bool verifHasReturned() const { return _returned != nullptr; }
+#endif
 
 private:
   Context * _root;
